@@ -171,7 +171,9 @@ class Excel:
             for row in worksheet.iter_rows():
                 rows_data = []
                 for index, cell in enumerate(row):
-                    if cell.value and (suspicious_constructions := cls._get_suspicious_constructions(cell.value)):
+                    # the text of an array formula is what has to be looked at, not the object that carries it
+                    scanned = cell.value.text if isinstance(cell.value, ArrayFormula) else cell.value
+                    if scanned and (suspicious_constructions := cls._get_suspicious_constructions(scanned)):
                         suspicious_cells[f"'{worksheet.title}'{cell.column_letter}{cell.row}"] = suspicious_constructions
 
                     # обрабатываем ArrayFormula, считываем из него значение формулы
